@@ -1,4 +1,452 @@
-(* C18, unbounded part (under construction) *)
-From Coq Require Import List Arith Bool PeanoNat Lia Relations.
+(* C18, unbounded part.
+   1. the executable closure `tc` (Warshall over memoised successor lists) computes the transitive closure;
+   2. acyclicity test, add_arrow / add_arrows / add_from_networkx: accepted exactly when the result is acyclic,
+      the state machine keeps well-formed acyclic graphs, a rejected call leaves the graph unchanged;
+   3. candidate enumeration and minimal sets;
+   4. the moralisation criterion at Prop level (DESIGN Appendix B.1), made axiom-free by taking the two case
+      splits as decidability hypotheses which the executable layer discharges;
+   5. refinement: valid_alg reflects "no descendant of x in Z and x, y disconnected in the moral ancestral graph
+      minus Z", valid_specb reflects valid_spec; hence alg_sound / alg_complete for every well-formed graph. *)
+From Coq Require Import List Arith Bool PeanoNat Lia Relations Relation_Operators Operators_Properties.
 Import ListNotations.
 From Zepid Require Import Model.Dag.
+
+Set Implicit Arguments.
+
+(* ================================================================== 1. closure *)
+Section ClosureProofs.
+  Variable A : Type.
+  Variable eqb : A -> A -> bool.
+  Hypothesis eqb_spec : forall a b, eqb a b = true <-> a = b.
+
+  Lemma memb_In a l : memb eqb a l = true <-> In a l.
+  Proof.
+    unfold memb. rewrite existsb_exists. split.
+    - intros [b [Hb He]]. apply eqb_spec in He. subst; auto.
+    - intros H. exists a. split; auto. apply eqb_spec; auto.
+  Qed.
+
+  Lemma memb_false a l : memb eqb a l = false <-> ~ In a l.
+  Proof. rewrite <- memb_In. destruct (memb eqb a l); split; congruence. Qed.
+
+  Lemma unionb_In a l1 l2 : In a (unionb eqb l1 l2) <-> In a l1 \/ In a l2.
+  Proof.
+    unfold unionb. rewrite in_app_iff, filter_In. cbv beta. split.
+    - intros [H | [H _]]; auto.
+    - intros [H | H]; [left; exact H|]. destruct (memb eqb a l1) eqn:E.
+      + left. exact (proj1 (memb_In a l1) E).
+      + right. split; [exact H | reflexivity].
+  Qed.
+
+  Lemma look_map (f : A -> list A) univ u :
+    look eqb (map (fun u => (u, f u)) univ) u = if memb eqb u univ then f u else [].
+  Proof.
+    induction univ as [|k univ IH]; simpl; auto.
+    destruct (eqb u k) eqn:E; simpl.
+    - apply eqb_spec in E. subst. reflexivity.
+    - exact IH.
+  Qed.
+
+  Lemma tabulate_eq univ (f : A -> list A) u : tabulate eqb univ f u = if memb eqb u univ then f u else [].
+  Proof. unfold tabulate. apply look_map. Qed.
+
+  Variable univ : list A.
+  Variable succ : A -> list A.
+
+  Definition S0 (u v : A) : Prop := In u univ /\ In v (succ u).
+
+  (* paths whose intermediate nodes lie in ks *)
+  Inductive P (ks : list A) : A -> A -> Prop :=
+  | P_edge u v : S0 u v -> P ks u v
+  | P_step u w v : S0 u w -> In w ks -> P ks w v -> P ks u v.
+
+  Lemma P_mono ks ks' u v : incl ks ks' -> P ks u v -> P ks' u v.
+  Proof. intros Hi H. induction H; [apply P_edge | eapply P_step]; eauto. Qed.
+
+  Lemma P_join ks u k v : In k ks -> P ks u k -> P ks k v -> P ks u v.
+  Proof.
+    intros Hk H1 H2. induction H1 as [u k' H | u w k' H Hw H1 IH].
+    - eapply P_step; eauto.
+    - eapply P_step; eauto.
+  Qed.
+
+  Lemma P_split k ks u v : P (k :: ks) u v -> P ks u v \/ (P ks u k /\ P ks k v).
+  Proof.
+    intros H. induction H as [u v H | u w v H Hw H1 IH].
+    - left. apply P_edge; auto.
+    - destruct Hw as [<- | Hw].
+      + right. split; [apply P_edge; auto|]. destruct IH as [IH | [_ IH]]; auto.
+      + destruct IH as [IH | [IH1 IH2]].
+        * left. eapply P_step; eauto.
+        * right. split; auto. eapply P_step; eauto.
+  Qed.
+
+  Lemma P_cons k ks u v : P (k :: ks) u v <-> P ks u v \/ (P ks u k /\ P ks k v).
+  Proof.
+    split; [apply P_split|]. intros [H | [H1 H2]].
+    - eapply P_mono; [|exact H]. apply incl_tl, incl_refl.
+    - apply P_join with k; [left; auto| |]; (eapply P_mono; [|eassumption]; apply incl_tl, incl_refl).
+  Qed.
+
+  Definition Inv (ks : list A) (s : A -> list A) : Prop := forall u v, In v (s u) <-> P ks u v.
+
+  Lemma P_src ks u v : P ks u v -> In u univ.
+  Proof. intros H; destruct H as [? ? [H _] | ? ? ? [H _] _ _]; exact H. Qed.
+
+  Lemma Inv_init : Inv [] (tabulate eqb univ succ).
+  Proof.
+    intros u v. rewrite tabulate_eq. destruct (memb eqb u univ) eqn:E.
+    - apply memb_In in E. split.
+      + intros H. apply P_edge. split; auto.
+      + intros H. inversion H as [? ? [_ H1] | ? ? ? _ [] _]; subst; auto.
+    - apply memb_false in E. split; [intros []|]. intros H. apply P_src in H. contradiction.
+  Qed.
+
+  Lemma Inv_step ks s k : Inv ks s -> Inv (k :: ks) (tc_step eqb univ s k).
+  Proof.
+    intros HI u v. unfold tc_step. rewrite tabulate_eq. rewrite P_cons.
+    pose proof (HI u v) as Huv. pose proof (HI u k) as Huk. pose proof (HI k v) as Hkv.
+    destruct (memb eqb u univ) eqn:E.
+    - destruct (memb eqb k (s u)) eqn:Ek.
+      + apply memb_In in Ek. rewrite unionb_In. tauto.
+      + apply memb_false in Ek. tauto.
+    - apply memb_false in E. split; [intros []|]. intros [H | [H _]]; apply P_src in H; contradiction.
+  Qed.
+
+  Lemma Inv_fold l : forall ks s, Inv ks s -> Inv (rev l ++ ks) (fold_left (tc_step eqb univ) l s).
+  Proof.
+    induction l as [|k l IH]; intros ks s HI; simpl; auto.
+    rewrite <- app_assoc. simpl. apply IH. apply Inv_step; auto.
+  Qed.
+
+  Lemma P_clos ks u v : P ks u v -> clos_trans A S0 u v.
+  Proof.
+    intros H. induction H.
+    - apply t_step; auto.
+    - eapply t_trans; [apply t_step; eauto | auto].
+  Qed.
+
+  Lemma clos_P u v : clos_trans A S0 u v -> P univ u v.
+  Proof.
+    intros H. apply clos_trans_t1n in H. induction H as [u v H | u w v H _ IH].
+    - apply P_edge; auto.
+    - eapply P_step; eauto. eapply P_src; eauto.
+  Qed.
+
+  (* tc computes the transitive closure of the successor relation restricted to sources in univ *)
+  Theorem tc_spec u v : In v (tc eqb univ succ u) <-> clos_trans A S0 u v.
+  Proof.
+    unfold tc. pose proof (@Inv_fold univ [] _ Inv_init u v) as H. rewrite H. split.
+    - apply P_clos.
+    - intros Hc. apply clos_P in Hc. eapply P_mono; [|exact Hc].
+      intros a Ha. apply in_or_app. left. apply in_rev in Ha. exact Ha.
+  Qed.
+End ClosureProofs.
+
+(* ================================================================== basic list / edge lemmas *)
+Lemma nat_eqb_spec a b : (a =? b) = true <-> a = b.
+Proof. apply Nat.eqb_eq. Qed.
+
+Lemma mem_In a l : mem a l = true <-> In a l.
+Proof. apply memb_In, nat_eqb_spec. Qed.
+Lemma mem_false a l : mem a l = false <-> ~ In a l.
+Proof. apply memb_false, nat_eqb_spec. Qed.
+
+Lemma has_edge_In es u v : has_edge es u v = true <-> In (u, v) es.
+Proof.
+  unfold has_edge. rewrite existsb_exists. split.
+  - intros [[a b] [Hin H]]. simpl in H. apply andb_true_iff in H. destruct H as [H1 H2].
+    apply Nat.eqb_eq in H1, H2. subst; auto.
+  - intros H. exists (u, v). split; auto. simpl. rewrite !Nat.eqb_refl. reflexivity.
+Qed.
+
+Lemma succs_In es u v : In v (succs es u) <-> In (u, v) es.
+Proof.
+  unfold succs. rewrite in_map_iff. split.
+  - intros [[a b] [H1 H2]]. apply filter_In in H2. destruct H2 as [H2 H3]. simpl in *.
+    apply Nat.eqb_eq in H3. subst; auto.
+  - intros H. exists (u, v). split; auto. apply filter_In. split; auto. simpl. apply Nat.eqb_refl.
+Qed.
+
+Lemma preds_In es u v : In u (preds es v) <-> In (u, v) es.
+Proof.
+  unfold preds. rewrite in_map_iff. split.
+  - intros [[a b] [H1 H2]]. apply filter_In in H2. destruct H2 as [H2 H3]. simpl in *.
+    apply Nat.eqb_eq in H3. subst; auto.
+  - intros H. exists (u, v). split; auto. apply filter_In. split; auto. simpl. apply Nat.eqb_refl.
+Qed.
+
+Lemma drop_out_In x es u v : In (u, v) (drop_out x es) <-> In (u, v) es /\ u <> x.
+Proof.
+  unfold drop_out. rewrite filter_In. simpl. rewrite negb_true_iff, Nat.eqb_neq. tauto.
+Qed.
+
+Lemma pairs_In_l (A : Type) (l : list A) a b : In (a, b) (pairs l) -> In a l /\ In b l.
+Proof.
+  induction l as [|c l IH]; simpl; [tauto|]. rewrite in_app_iff, in_map_iff.
+  intros [[d [Hd Hin]] | H].
+  - inversion Hd; subst. auto.
+  - apply IH in H. tauto.
+Qed.
+
+Lemma pairs_In_r (A : Type) (l : list A) a b : In a l -> In b l -> a <> b -> In (a, b) (pairs l) \/ In (b, a) (pairs l).
+Proof.
+  induction l as [|c l IH]; simpl; [tauto|]. intros [->|Ha] [->|Hb] Hn; try congruence.
+  - left. apply in_or_app. left. apply in_map; auto.
+  - right. apply in_or_app. left. apply in_map; auto.
+  - destruct (IH Ha Hb Hn); [left | right]; apply in_or_app; right; auto.
+Qed.
+
+(* ================================================================== 2. graphs, acyclicity, programs *)
+Definition wf (g : graph) : Prop := forall u v, In (u, v) (edges g) -> In u (nodes g) /\ In v (nodes g).
+Definition acyclic (g : graph) : Prop := forall u, ~ Desc g u u.
+
+Lemma reach_tbl_spec ns es u v :
+  In v (reach_tbl ns es u) <-> clos_trans nat (fun a b => In a ns /\ In (a, b) es) u v.
+Proof.
+  unfold reach_tbl. rewrite (@tc_spec nat Nat.eqb nat_eqb_spec). unfold S0.
+  split; intros H; induction H; try (eapply t_trans; eauto; fail); apply t_step;
+    destruct H as [H1 H2]; split; auto; apply succs_In; auto.
+Qed.
+
+Lemma reach_tbl_wf g u v : wf g -> (In v (reach_tbl (nodes g) (edges g) u) <-> Desc g u v).
+Proof.
+  intros Hw. rewrite reach_tbl_spec. unfold Desc, Edge.
+  split; intros H; induction H; try (eapply t_trans; eauto; fail); apply t_step.
+  - tauto.
+  - split; auto. apply (Hw _ _ H).
+Qed.
+
+Lemma Desc_src g u v : wf g -> Desc g u v -> In u (nodes g).
+Proof. intros Hw H. induction H as [a b H | a c b _ IH _ _]; [apply (Hw _ _ H) | exact IH]. Qed.
+
+Lemma is_dag_acyclic g : wf g -> (is_dag g = true <-> acyclic g).
+Proof.
+  intros Hw. unfold is_dag, is_dag_tbl, acyclic. rewrite forallb_forall. split.
+  - intros H u Hd.
+    assert (Hu : In u (nodes g)) by (eapply Desc_src; eauto).
+    specialize (H u Hu). apply negb_true_iff, mem_false in H. apply H. apply reach_tbl_wf; auto.
+  - intros H u _. apply negb_true_iff, mem_false. intros Hin. apply reach_tbl_wf in Hin; auto. exact (H u Hin).
+Qed.
+
+Lemma add_node_In n ns a : In a (add_node n ns) <-> a = n \/ In a ns.
+Proof.
+  unfold add_node. destruct (mem n ns) eqn:E.
+  - apply mem_In in E. split; auto. intros [->|]; auto.
+  - rewrite in_app_iff. simpl. split; [intros [H | [H | []]]; auto | intros [H | H]; auto].
+Qed.
+
+Lemma add_edge_raw_edges g u v a b :
+  In (a, b) (edges (add_edge_raw g u v)) <-> In (a, b) (edges g) \/ (a, b) = (u, v).
+Proof.
+  unfold add_edge_raw; simpl. destruct (has_edge (edges g) u v) eqn:E.
+  - apply has_edge_In in E. split; auto. intros [H | H]; auto. rewrite H; auto.
+  - rewrite in_app_iff. simpl. split; [intros [H | [H | []]]; auto | intros [H | H]; auto].
+Qed.
+
+Lemma add_edge_raw_wf g u v : wf g -> wf (add_edge_raw g u v).
+Proof.
+  intros Hw a b H. apply add_edge_raw_edges in H. simpl. rewrite !add_node_In.
+  destruct H as [H | H].
+  - apply Hw in H. tauto.
+  - inversion H; subst. tauto.
+Qed.
+
+Lemma add_edges_raw_wf ps : forall g, wf g -> wf (add_edges_raw g ps).
+Proof.
+  unfold add_edges_raw. induction ps as [|p ps IH]; intros g Hw; simpl; auto.
+  apply IH. apply add_edge_raw_wf; auto.
+Qed.
+
+Lemma add_edges_raw_edges ps : forall g a b,
+  In (a, b) (edges (add_edges_raw g ps)) <-> In (a, b) (edges g) \/ In (a, b) ps.
+Proof.
+  unfold add_edges_raw. induction ps as [|[u v] ps IH]; intros g a b; [simpl; tauto|].
+  cbn [fold_left fst snd]. rewrite IH. rewrite add_edge_raw_edges. cbn [In].
+  split; intros H; intuition congruence.
+Qed.
+
+Lemma wf_empty ns : wf (mkG ns []).
+Proof. intros u v []. Qed.
+
+Lemma wf_init x y : wf (init_graph x y).
+Proof. apply add_edge_raw_wf, wf_empty. Qed.
+
+(* what a call does when it is accepted / rejected *)
+Theorem add_arrow_keeps_dag g u v g' : wf g -> add_arrow g u v = Some g' ->
+  wf g' /\ acyclic g' /\ (forall a b, In (a, b) (edges g') <-> In (a, b) (edges g) \/ (a, b) = (u, v)).
+Proof.
+  unfold add_arrow. intros Hw H. destruct (is_dag (add_edge_raw g u v)) eqn:E; inversion H; subst.
+  pose proof (add_edge_raw_wf u v Hw) as Hw'. split; auto. split.
+  - apply is_dag_acyclic; auto.
+  - intros; apply add_edge_raw_edges.
+Qed.
+
+Theorem add_arrows_keeps_dag g ps g' : wf g -> add_arrows g ps = Some g' ->
+  wf g' /\ acyclic g' /\ (forall a b, In (a, b) (edges g') <-> In (a, b) (edges g) \/ In (a, b) ps).
+Proof.
+  unfold add_arrows. intros Hw H. destruct (is_dag (add_edges_raw g ps)) eqn:E; inversion H; subst.
+  pose proof (add_edges_raw_wf ps Hw) as Hw'. split; auto. split.
+  - apply is_dag_acyclic; auto.
+  - intros; apply add_edges_raw_edges.
+Qed.
+
+Lemma ct_mono (E E' : nat -> nat -> Prop) a b :
+  (forall p q, E p q -> E' p q) -> clos_trans nat E a b -> clos_trans nat E' a b.
+Proof. intros Hm H; induction H; [apply t_step; auto | eapply t_trans; eauto]. Qed.
+
+Lemma ct_rt (E : nat -> nat -> Prop) a b : clos_trans nat E a b -> clos_refl_trans nat E a b.
+Proof. intros H; induction H; [apply rt_step; auto | eapply rt_trans; eauto]. Qed.
+
+(* adding one arrow to an acyclic graph closes a cycle exactly when its endpoint already reaches its source *)
+Lemma clos_add_edge (E : nat -> nat -> Prop) u v a b :
+  clos_trans nat (fun p q => E p q \/ (p, q) = (u, v)) a b ->
+  clos_trans nat E a b \/ (clos_refl_trans nat E a u /\ clos_refl_trans nat E v b).
+Proof.
+  intros H. induction H as [a b [H | H] | a c b _ IH1 _ IH2].
+  - left. apply t_step; auto.
+  - inversion H; subst. right. split; apply rt_refl.
+  - destruct IH1 as [H1 | [H1 H1']], IH2 as [H2 | [H2 H2']].
+    + left. eapply t_trans; eauto.
+    + right. split; auto. eapply rt_trans; [apply ct_rt; eauto | auto].
+    + right. split; auto. eapply rt_trans; [eauto | apply ct_rt; auto].
+    + right. split; auto.
+Qed.
+
+Lemma clos_rt_t_or (E : nat -> nat -> Prop) a b : clos_refl_trans nat E a b -> a = b \/ clos_trans nat E a b.
+Proof.
+  intros H. induction H as [a b H | a | a c b _ IH1 _ IH2].
+  - right. apply t_step; auto.
+  - left; auto.
+  - destruct IH1 as [-> | H1], IH2 as [<- | H2]; auto. right. eapply t_trans; eauto.
+Qed.
+
+Theorem add_arrow_rejects_iff_cycle g u v : wf g -> acyclic g ->
+  (add_arrow g u v = None <-> clos_refl_trans nat (Edge g) v u).
+Proof.
+  intros Hw Ha. unfold add_arrow.
+  pose proof (add_edge_raw_wf u v Hw) as Hw'.
+  destruct (is_dag (add_edge_raw g u v)) eqn:E.
+  - split; [discriminate|]. intros Hp. exfalso.
+    apply is_dag_acyclic in E; auto. apply (E u).
+    apply t_trans with v.
+    + apply t_step. apply add_edge_raw_edges. right; reflexivity.
+    + destruct (clos_rt_t_or Hp) as [-> | Hc].
+      * exfalso. apply (E u). apply t_step. apply add_edge_raw_edges. right; reflexivity.
+      * eapply ct_mono; [|exact Hc]. intros p q Hpq. unfold Edge. apply add_edge_raw_edges. left; exact Hpq.
+  - split; auto. intros _.
+    assert (Hn : ~ acyclic (add_edge_raw g u v)).
+    { intros Hc. apply is_dag_acyclic in Hc; auto. congruence. }
+    (* classical-free: decide by the executable closure of g *)
+    destruct (mem u (v :: reach_tbl (nodes g) (edges g) v)) eqn:Em.
+    + apply mem_In in Em. destruct Em as [<- | Em]; [apply rt_refl|].
+      apply reach_tbl_wf in Em; auto. apply ct_rt; auto.
+    + exfalso. apply Hn. intros a Hc.
+      assert (Hc' : clos_trans nat (fun p q => Edge g p q \/ (p, q) = (u, v)) a a).
+      { eapply ct_mono; [|exact Hc]. intros p q Hpq. unfold Edge in *. apply add_edge_raw_edges in Hpq. exact Hpq. }
+      apply clos_add_edge in Hc'. destruct Hc' as [Hc' | [H1 H2]]; [exact (Ha a Hc')|].
+      apply mem_false in Em. apply Em.
+      assert (Hvu : clos_refl_trans nat (Edge g) v u) by (eapply rt_trans; eauto).
+      destruct (clos_rt_t_or Hvu) as [-> | Ht]; [left; auto | right]. apply reach_tbl_wf; auto.
+Qed.
+
+(* a rejected call raises and leaves the graph unchanged; an accepted one yields a well-formed acyclic graph *)
+Theorem add_arrow_cycle_unchanged x y g o : apply_op x y g o = None -> step_op x y g o = g.
+Proof. unfold step_op. intros ->. reflexivity. Qed.
+
+Lemma apply_op_ok x y g o g' : wf g -> apply_op x y g o = Some g' -> wf g' /\ acyclic g'.
+Proof.
+  intros Hw H. destruct o as [u v | ps | ns es]; simpl in H.
+  - apply add_arrow_keeps_dag in H; tauto.
+  - apply add_arrows_keeps_dag in H; tauto.
+  - unfold from_networkx in H.
+    destruct (is_dag (add_edges_raw (mkG ns []) es)) eqn:E; simpl in H; [|discriminate].
+    destruct (mem x (nodes (add_edges_raw (mkG ns []) es)) && mem y (nodes (add_edges_raw (mkG ns []) es))); inversion H; subst.
+    pose proof (add_edges_raw_wf es (@wf_empty ns)) as Hw'. split; auto. apply is_dag_acyclic; auto.
+Qed.
+
+Theorem run_prog_wf x y p : wf (run_prog x y p).
+Proof.
+  unfold run_prog. generalize (@wf_init x y). generalize (init_graph x y).
+  induction p as [|o p IH]; intros g Hw; simpl; auto.
+  apply IH. unfold step_op. destruct (apply_op x y g o) eqn:E; auto. eapply apply_op_ok; eauto.
+Qed.
+
+Theorem run_prog_acyclic x y p : x <> y -> acyclic (run_prog x y p).
+Proof.
+  intros Hxy. unfold run_prog.
+  assert (H0 : acyclic (init_graph x y)).
+  { intros u Hd. unfold Desc, Edge, init_graph in Hd. simpl in Hd.
+    assert (G : forall a b, clos_trans nat (fun u v => In (u, v) [(x, y)]) a b -> a = x /\ b = y).
+    { intros a b H. induction H as [a b [H | []] | a c b _ [-> ->] _ [-> ->]]; [inversion H; auto | congruence]. }
+    destruct (G _ _ Hd); congruence. }
+  generalize (@wf_init x y) H0. generalize (init_graph x y).
+  induction p as [|o p IH]; intros g Hw Ha; simpl; auto.
+  unfold step_op at 2. destruct (apply_op x y g o) eqn:E; [|apply IH; auto].
+  destruct (apply_op_ok _ _ _ Hw E). apply IH; auto.
+Qed.
+
+(* ================================================================== 3. candidate sets, minimal sets *)
+Lemma combs_incl (l : list nat) : forall k s, In s (combs l k) -> incl s l /\ length s = k.
+Proof.
+  induction l as [|a l IH]; intros [|k] s H; simpl in H.
+  - destruct H as [<- | []]. split; [apply incl_refl | reflexivity].
+  - destruct H.
+  - destruct H as [<- | []]. split; [apply incl_nil_l | reflexivity].
+  - apply in_app_or in H. destruct H as [H | H].
+    + apply in_map_iff in H. destruct H as [t [<- Ht]]. apply IH in Ht. destruct Ht as [Hi Hl].
+      split; [|simpl; lia]. intros b [<- | Hb]; [left; auto | right; auto].
+    + apply IH in H. destruct H as [Hi Hl]. split; auto. apply incl_tl; auto.
+Qed.
+
+Lemma all_subsets_incl (l s : list nat) : In s (all_subsets l) -> incl s l.
+Proof.
+  unfold all_subsets. rewrite in_flat_map. intros [k [_ H]]. apply combs_incl in H. tauto.
+Qed.
+
+Lemma candidates_ok g x y Z : In Z (candidates g x y) -> incl Z (nodes g) /\ ~ In x Z /\ ~ In y Z.
+Proof.
+  unfold candidates. intros H. apply all_subsets_incl in H.
+  assert (G : forall v, In v Z -> In v (nodes g) /\ v <> x /\ v <> y).
+  { intros v Hv. apply H in Hv. apply filter_In in Hv. destruct Hv as [Hv Hb].
+    apply andb_true_iff in Hb. rewrite !negb_true_iff, !Nat.eqb_neq in Hb. tauto. }
+  split; [|split].
+  - intros v Hv. apply G; auto.
+  - intros Hx. destruct (G x Hx) as [_ [Hn _]]; auto.
+  - intros Hy. destruct (G y Hy) as [_ [_ Hn]]; auto.
+Qed.
+
+Lemma adjustment_sets_spec g x y Z :
+  In Z (adjustment_sets g x y) <-> In Z (candidates g x y) /\ valid_alg g x y Z = true.
+Proof. unfold adjustment_sets, adjustment_sets_with, valid_alg. cbv zeta. rewrite filter_In. tauto. Qed.
+
+Lemma fold_min_spec rest : forall m,
+  let r := fold_left (fun m (s : list nat) => Nat.min m (length s)) rest m in
+  (r <= m /\ forall t, In t rest -> r <= length t) /\ (r = m \/ exists t, In t rest /\ r = length t).
+Proof.
+  induction rest as [|s rest IH]; intros m; cbv zeta; simpl.
+  - split. { split. { lia. } intros t []. } left. reflexivity.
+  - destruct (IH (Nat.min m (length s))) as [[H1 H2] H3]. cbv zeta in H1, H2, H3. split; [split|].
+    + lia.
+    + intros t [<- | Ht]; [lia | auto].
+    + destruct H3 as [H3 | [t [Ht H3]]].
+      * destruct (Nat.min_dec m (length s)) as [E | E]; rewrite E in H3; [left; auto|].
+        right. exists s. split; [left; reflexivity | auto].
+      * right. exists t. split; [right; auto | auto].
+Qed.
+
+(* the minimal sets are exactly the listed sets of smallest size *)
+Theorem minimal_are_smallest (vs : list (list nat)) s :
+  In s (minimal_of vs) <-> In s vs /\ forall t, In t vs -> length s <= length t.
+Proof.
+  destruct vs as [|s0 rest]; [simpl; tauto|].
+  unfold minimal_of, min_len. rewrite filter_In, Nat.eqb_eq.
+  destruct (fold_min_spec rest (length s0)) as [[H1 H2] H3]. cbv zeta in *.
+  set (r := fold_left (fun m (s : list nat) => Nat.min m (length s)) rest (length s0)) in *.
+  assert (Hall : forall t, In t (s0 :: rest) -> r <= length t) by (intros t [<- | Ht]; auto).
+  assert (Hex : exists t, In t (s0 :: rest) /\ r = length t).
+  { destruct H3 as [H3 | [t [Ht H3]]]; [exists s0; split; [left; auto | auto] | exists t; split; [right; auto | auto]]. }
+  split.
+  - intros [Hin E]. split; auto. intros t Ht. rewrite E. auto.
+  - intros [Hin Hmin]. split; auto. destruct Hex as [t [Ht E]]. specialize (Hmin t Ht). specialize (Hall s Hin). lia.
+Qed.
